@@ -27,6 +27,10 @@
                                     (`AbsHeap`: word -> type pointer, word -> payload, type pointer -> hooks by type name through the
                                     regenerated table `Gen.ValueAbs.hookedTypes`) is accumulated from the a-tokens seen so far
    arow <i>                      -> as `row` over the values given by `aval`: equalsL / jcompareL under that memory
+   pval <id> <n> <hex address>*n aterm
+                                 -> "ok": the value with the addresses of its tuple / struct objects (preorder, a struct: slots then prototype)
+   prow <i>                      -> one char per `pval` value j: 'e' / 'n' from `equalsP` = janet_equals WITH its pointer short-cuts
+                                    `t1 == t2` / `s1 == s2` (Value/PtrShortcut.lean)
    iterrow <i>                   -> as `row`, computed by the ITERATIVE mirrors of janet_equals / janet_compare (explicit traversal
                                     stack, Value/Traverse.lean; `?` = fuel exhausted), then a space and the deepest stack seen
 -/
@@ -37,6 +41,7 @@ import JanetModel.Value.StringLoop
 import JanetModel.Value.SymGen
 import JanetModel.Value.Traverse
 import JanetModel.Value.Abstract
+import JanetModel.Value.PtrShortcut
 open Driver JanetModel.Value
 
 abbrev V := JVal F64
@@ -255,9 +260,32 @@ partial def parseAMany : Nat → List String → Option (List AV × List AbsEntr
       pure (x :: xs, e1 ++ e2, rest)
 end
 
+abbrev PV := PVal (Leaf F64)
+
+mutual
+/-- attach the serialised addresses to the tuple / struct nodes in preorder -/
+partial def annot : AV → List Nat → Option (PV × List Nat)
+  | .leaf l, as => some (.leaf l, as)
+  | .tuple br xs, a :: as => do
+      let (ys, as) ← annotL xs as
+      pure (.tuple a br ys, as)
+  | .struct f p, a :: as => do
+      let (f', as) ← annotL f as
+      let (p', as) ← annotL p as
+      pure (.struct a f' p', as)
+  | _, [] => none
+partial def annotL : List AV → List Nat → Option (List PV × List Nat)
+  | [], as => some ([], as)
+  | x :: xs, as => do
+      let (y, as) ← annot x as
+      let (ys, as) ← annotL xs as
+      pure (y :: ys, as)
+end
+
 structure St where
   vals : Array V := #[]
   avals : Array AV := #[]
+  pvals : Array PV := #[]
   heap : List AbsEntry := []
 
 /-- memory as value.c reads it, from the abstracts serialised so far; the hooks of a type come from its NAME through the
@@ -291,6 +319,25 @@ def step2 (S : St) (toks : List String) : St × String :=
   | ["arow", i] =>
     match i.toNat? >>= (S.avals[·]?) with
     | some a => let H := heapOf S.heap; (S, String.ofList (S.avals.toList.map (apairChar H a)))
+    | none => (S, "bad-id")
+  | "pval" :: id :: n :: rest =>
+    match n.toNat? with
+    | some n =>
+      match (rest.take n).mapM hexNat, parseATerm (rest.drop n) with
+      | some addrs, some (v, es, []) =>
+        match annot v addrs with
+        | some (pv, []) =>
+          if id.toNat? == some S.pvals.size then
+            ({ S with pvals := S.pvals.push pv, heap := S.heap ++ es.filter (fun e => !(S.heap.any (·.bits == e.bits))) }, "ok")
+          else (S, "bad-id")
+        | _ => (S, "bad-addresses")
+      | _, _ => (S, "bad-term")
+    | none => (S, "bad-op")
+  | ["prow", i] =>
+    match i.toNat? >>= (S.pvals[·]?) with
+    | some a =>
+      let _ : AbsHeap := heapOf S.heap
+      (S, String.ofList (S.pvals.toList.map fun b => if equalsP a b then 'e' else 'n'))
     | none => (S, "bad-id")
   | _ => let (v, o) := step S.vals toks; ({ S with vals := v }, o)
 
